@@ -78,6 +78,16 @@ def handle : List SExp → String
     match SExp.listOf? words? docs, SExp.listOf? words? termss with
     | some docs, some termss => showList showNatList (termss.map (fuzzyDocsOf docs))
     | _, _ => "bad-op"
+  | [.atom "list-sug-grid", wl, w, limits, ds, ps] =>
+    -- ListCorrector(wl).suggest(w, limit, maxdist=d, prefix=p) for every (d, p, limit) of the grid
+    match words? wl, word? w, limits.natList?, ds.natList?, ps.natList? with
+    | some wl, some w, some limits, some ds, some ps =>
+      -- (the items are computed once per (d, p); `listSuggest` is `suggestItems` of them by definition)
+      showList id (ds.flatMap fun d => ps.flatMap fun p =>
+        match listSuggestionsLoop wl w p ((List.range d).map (· + 1)) [] with
+        | .error e => limits.map fun _ => showErr e
+        | .ok items => limits.map fun lim => showExcept showWords (suggestItems items lim))
+    | _, _, _, _, _ => "bad-op"
   | [.atom "suggest-of", terms, lex, freqs, limit, d] =>
     -- `Corrector.suggest` on a given `terms_within` result; `freqs` is aligned with `lex`
     match words? terms, words? lex, freqs.natList?, limit.nat?, d.nat? with
